@@ -6,8 +6,19 @@ From Coq Require Import NArith ZArith List Uint63.
 From Verif Require Import Common.Bytes.
 Import ListNotations.
 
-Definition w7 (x : int) : bytes := be_bytes 7 (Z.to_N (Uint63.to_Z x)).
-Definition pk (len : nat) (l : list int) : bytes := firstn len (List.concat (map w7 l)).
+Definition byte_of (x : int) : N := Z.to_N (Uint63.to_Z (x land 255)%uint63).
+
+Definition w7 (x : int) : bytes :=
+  [byte_of (x >> 48)%uint63; byte_of (x >> 40)%uint63; byte_of (x >> 32)%uint63; byte_of (x >> 24)%uint63;
+   byte_of (x >> 16)%uint63; byte_of (x >> 8)%uint63; byte_of x].
+
+Fixpoint pk_words (l : list int) : bytes :=
+  match l with
+  | [] => []
+  | x :: r => w7 x ++ pk_words r
+  end.
+
+Definition pk (len : nat) (l : list int) : bytes := firstn len (pk_words l).
 
 Example pk_ex : pk 9 [283686952306183; 2260595906707456]%uint63 = [1; 2; 3; 4; 5; 6; 7; 8; 8]%N.
 Proof. vm_compute. reflexivity. Qed.
